@@ -4,7 +4,10 @@ SEED=$1; PID=$2; TIER=${3:-quick}
 cd /repo || exit 2
 if [ -n "$(git status --short -- src)" ]; then echo "/repo has local changes, refusing"; exit 2; fi
 git apply $SEED/patch.diff || { echo "patch does not apply"; exit 2; }
+cp /verif/evidence/$PID.json /verif/evidence/.$PID.json.clean 2>/dev/null
 cd /verif && ./check $PID --tier $TIER > $SEED/check_$PID.log 2>&1; rc=$?
 cp /verif/evidence/$PID.json $SEED/evidence_$PID.json 2>/dev/null
+# the evidence file of the registered check describes the unchanged tree: put the clean-tree one back
+mv /verif/evidence/.$PID.json.clean /verif/evidence/$PID.json 2>/dev/null
 git -C /repo checkout -- . 
 echo "check $PID on seed $(basename $SEED): exit $rc"; grep -E "^VIOLATION|^KNOWN|what:|INCONCLUSIVE" $SEED/check_$PID.log | cut -c1-400 | head -8; tail -n 1 $SEED/check_$PID.log
